@@ -27,6 +27,14 @@ static void verif_fail(const char* msg) { fprintf(stderr, "VERIF_ASSERT failed: 
 #define VERIF_ASSERT(c, msg) ((c) ? (void)0 : verif_fail(msg))
 #define VERIF_ASSUME(c) ((void)0)
 #endif
+#ifndef VERIF_MAXBUF
+#define VERIF_MAXBUF 0x7fffffffUL   /* SQLite's hard blob limit (2^31 - 1): no database can hand the decoders more */
+#endif
+/* pointer facts for loop invariants: written over object/offset so that they carry no well-definedness side
+ * conditions of their own (a relational operator on a havocked pointer fails cbmc's pointer check before the
+ * invariant is even assumed) */
+#define PTR_LE(a, b) (__CPROVER_same_object(a, b) && __CPROVER_POINTER_OFFSET(a) <= __CPROVER_POINTER_OFFSET(b))
+#define PTR_DIFF(e, p) ((int64_t)__CPROVER_POINTER_OFFSET(e) - (int64_t)__CPROVER_POINTER_OFFSET(p))
 #define VERIF_CHECK_PTR(c, msg) VERIF_ASSERT((c), "check: " msg)
 #define VERIF_MODEL_LOOP
 
